@@ -4,3 +4,4 @@ import GapicModel.Lemmas.Regex
 import GapicModel.Bridge.All
 import GapicModel.Driver
 import GapicModel.Props.C19
+import GapicModel.Props.C07
